@@ -21,7 +21,7 @@ class C18(BaseCheck):
   REQUIRED_CLASSES = ('counter', 'gauge', 'percentile:below-reservoir', 'percentile:above-reservoir',
                       'full-stack', 'percentile:busy-after-full', 'zero-increment', 'fractional-increment',
                       'overlapping-measure', 'gauge:persistent-objects', 'percentile:second-aggregation',
-                      'sibling-class-same-short-name', 'source-subclass')
+                      'sibling-class-same-short-name', 'source-subclass', 'client-id:equal-not-identical')
   ASSUMPTIONS = ('percentile bounds allow 1e-9 relative slack for the linear interpolation',)
   QUICK_CASES = 720
   THOROUGH_CASES = 40000
@@ -68,14 +68,21 @@ class C18(BaseCheck):
     nops = rng.choice([20, 60, 150, 400])
     sub_case = idx % 3 == 1
 
+    def fresh(cid):
+      # client ids come from configuration at run time: equal strings, not one shared object
+      if cid is None:
+        return None
+      classes.add('client-id:equal-not-identical')
+      return cid[:1] + cid[1:]
+
     class SubSource(Source):
       pass
     for _ in range(nops):
       t = rng.choice(tuples)
-      src = Source(method=t[0], service=t[1], endpoint=t[2], client_id=t[3])   # fresh object each time
+      src = Source(method=t[0], service=t[1], endpoint=t[2], client_id=fresh(t[3]))   # fresh object each time
       if sub_case and rng.random() < 0.3:
         # an application's convenience subclass of Source: same four fields, so the same source
-        src = SubSource(method=t[0], service=t[1], endpoint=t[2], client_id=t[3])
+        src = SubSource(method=t[0], service=t[1], endpoint=t[2], client_id=fresh(t[3]))
         classes.add('source-subclass')
       fresh_uses[t] = fresh_uses.get(t, 0) + 1
       k = rng.choice(['cnt', 'rate', 'agg', 'g', 'cnt-class', 'g'])
@@ -146,7 +153,7 @@ class C18(BaseCheck):
       import gevent
       classes.add('overlapping-measure')
       t0 = rng.choice(tuples)
-      shared = V(Source(method=t0[0], service=t0[1], endpoint=t0[2], client_id=t0[3]))
+      shared = V(Source(method=t0[0], service=t0[1], endpoint=t0[2], client_id=fresh(t0[3])))
       blocks = []
       for _ in range(rng.randint(2, 5)):
         form = rng.choice(['bound', 'class'])
@@ -160,7 +167,7 @@ class C18(BaseCheck):
         if form == 'bound':
           cm = shared.agg2.Measure()
         else:
-          cm = V.agg2.Measure(Source(method=t[0], service=t[1], endpoint=t[2], client_id=t[3]))
+          cm = V.agg2.Measure(Source(method=t[0], service=t[1], endpoint=t[2], client_id=fresh(t[3])))
         with cm:
           gevent.sleep(d)
       gs = [gevent.spawn(block, *b) for b in blocks]
@@ -205,7 +212,7 @@ class C18(BaseCheck):
       if short in ('g', 'w:g'):
         for t in ts:
           out.obligations += 1
-          probe = Source(method=t[0], service=t[1], endpoint=t[2], client_id=t[3])
+          probe = Source(method=t[0], service=t[1], endpoint=t[2], client_id=fresh(t[3]))
           got = series.get(probe, 'MISSING') if hasattr(series, 'get') else 'MISSING'
           want_g = model_gauge[t] if short == 'g' else model_gauge[('w', t)]
           if got != want_g:
